@@ -166,6 +166,10 @@ func (g *Gateway) subscriptionHandler(w http.ResponseWriter, r *http.Request) {
 				return
 			}
 
+			// an id that is already in use: the operation running under it is stopped first,
+			// or nobody could ever stop it again
+			subDict.Clean(subMsg.ID)
+
 			subDict[subMsg.ID] = subEntry
 
 			go subEntry.Listen(conn)
